@@ -405,6 +405,8 @@ def bounded(pr):
         if k == 0:
             fd, path = tempfile.mkstemp(suffix='.cfg')
             os.close(fd)
+            import atexit
+            atexit.register(lambda p_=path: os.path.exists(p_) and os.unlink(p_))     # also when a monitor step raises
         # the SAME path is rewritten with other content each time (a regenerated custom parameter file);
         # every third file ends without a line terminator, some lines carry a trailing comment or Windows line ends
         text = ''.join(lines)
